@@ -210,14 +210,16 @@ def stepLinks (line : String) : String :=
       let c := mkCfg fmt host .none [(file, abs)]
       "ok " ++ hexOfBytes (filePathWithLineNumber c (links == 1) file ln painted)
     | _, _, _, _, _, _, _ => "ERR"
-  -- links.diff_stat <links> <fmt> <host|-> <abs|-> <path in repo> <relative path> <suffix> <align width>
-  | ["links.diff_stat", links, fmt, host, abs, path, rel, suffix, w] =>
-    match natOfField links, bytesOfField fmt, optBytes host, optBytes abs, bytesOfField path,
+  -- links.diff_stat <links> <fmt> <host|-> <abs of path in repo|-> <abs of relative path|-> <path in repo>
+  --                 <relative path> <suffix> <align width>
+  | ["links.diff_stat", links, fmt, host, abs, absRel, path, rel, suffix, w] =>
+    match natOfField links, bytesOfField fmt, optBytes host, optBytes abs, optBytes absRel, bytesOfField path,
       bytesOfField rel, bytesOfField suffix, natOfField w with
-    | some links, some fmt, some host, some abs, some path, some rel, some suffix, some w =>
-      let c := mkCfg fmt host .none [(path, abs)]
+    | some links, some fmt, some host, some abs, some absRel, some path, some rel, some suffix, some w =>
+      let c := mkCfg fmt host .none (if path == rel then [(path, if Generated.diffStatLinksRelPath then absRel else abs)]
+                                      else [(path, abs), (rel, absRel)])
       "ok " ++ hexOfBytes (diffStatLine c (links == 1) path rel suffix w)
-    | _, _, _, _, _, _, _, _ => "ERR"
+    | _, _, _, _, _, _, _, _, _ => "ERR"
   -- links.file_change <links> <fmt> <host|-> <kind> <label> <arrow> <minus> <abs minus|-> <plus> <abs plus|->
   | ["links.file_change", links, fmt, host, kind, label, arrow, minus, am, plus, ap] =>
     match natOfField links, bytesOfField fmt, optBytes host, bytesOfField label, bytesOfField arrow,
